@@ -115,6 +115,9 @@ func FailCtx(id string) error {
 	return &ProvErr{ID: id}
 }
 
+// Err is an alias of error: provider signatures may spell their error result through it.
+type Err = error
+
 type ProvErr struct{ ID string }
 
 func (e *ProvErr) Error() string { return "provider-failed:" + e.ID }
@@ -356,7 +359,8 @@ def render_decl(k, line, rng=None, name=None):
             params = ", ".join("a%d %s" % (j, T(t)) for j, t in enumerate(p['req']))
             rets = [T(g[0]) for g in p['groups']]
             if p['e']:
-                rets.append("error")
+                # the error result is sometimes spelled through an alias of error declared in another package
+                rets.append("rt.Err" if (rng is not None and rng.chance(0.3)) else "error")
             argterms = ' + "," + '.join(term_of("a%d" % j, t) for j, t in enumerate(p['req'])) or '""'
             body = ['\trt.Enter("%s")' % pid]
             zeros = ", ".join(["%s{}" % T(g[0]) for g in p['groups']] + (["err"] if p['e'] else []))
